@@ -399,3 +399,8 @@ def batch_oracles(merged, mode):
 
 def batch_filter(rec):
     return {"sampler": rec["sampler"], "n": rec["N"], "regime": rec["regime"]}
+
+
+# reach guard: a full-size batch in which one of these never fired means the workload or the
+# harness has rotted (exit 2, never a pass)
+REQUIRED_REACH = ['resampling_judged', 'reseed', 'stream_draw']
